@@ -519,6 +519,10 @@ class C08(PropertyCheck):
         opts += [(a, rng.randint(0, size - a))] * 3
         if full > size:
             opts += [(size, full - size), (size - 1, 2), (rng.randint(0, size), full)]
+        # audit round: the model's masks are signed integers compared exactly as the code compares them
+        # (arange >= start & arange < start + width); a band that starts before the axis covers only its
+        # part inside it, a negative width covers nothing - never drawn, but accepted by apply_parameters
+        opts += [(-1, 2), (-2, 1), (rng.randint(0, size), -1), (-1, full + 2)]
         s, w = rng.choice(opts)
         return [s, w]
 
@@ -538,6 +542,12 @@ class C08(PropertyCheck):
              "order": 1 if rng.random() < 0.75 else rng.choice([2, 3]),
              "absent": rng.choice(["empty", "none"]), "api": rng.choice(["module", "functional"]),
              "feats": {"mode": rng.choice(["int", "pos", "randn"]), "seed": rng.randrange(1 << 30)}}
+        # audit round: only one half of a warp pair supplied (centre without shift or shift without centre).
+        # The code warps only if BOTH are present; the model's Option pair cannot express a half pair, so the
+        # expected behaviour is "that warp is off" (the observation reports warp_t/warp_f = None).
+        if (has_tw or has_fw) and rng.random() < 0.12:
+            c["half"] = rng.choice([k + ":" + h for k in (["warp_t"] if has_tw else []) + (["warp_f"] if has_fw else [])
+                                    for h in ("centre_only", "shift_only")])
         return self._vary(rng, c)
 
     # ------------------------------------------------------------------ implementation
@@ -699,8 +709,12 @@ class C08(PropertyCheck):
         absent = None if case["absent"] == "none" else torch.empty(0)
         el = case["elems"]
 
+        half = case.get("half")
+
         def warp(key, i):
             if el[0][key] is None:
+                return absent
+            if half in (key + ":centre_only", key + ":shift_only") and i == (1 if half.endswith("centre_only") else 0):
                 return absent
             return torch.tensor([float(F_(e[key][i])) for e in el], dtype=torch.float32)
 
@@ -1165,6 +1179,10 @@ class C08(PropertyCheck):
             t.append("F=1")
         if case["kind"] == "params":
             t.append("params:absent=" + case["absent"])
+            if case.get("half"):
+                t.append("params:half_warp_pair")
+            if any(m[0] < 0 or m[1] < 0 for e in case["elems"] for m in e["tmasks"] + e["fmasks"]):
+                t.append("params:mask_negative_start_or_width")
             el = case["elems"]
             t.append("params:time_warp=" + ("on" if el[0]["warp_t"] else "off"))
             t.append("params:freq_warp=" + ("on" if el[0]["warp_f"] else "off"))
